@@ -21,11 +21,11 @@ fuzz_target!(|data: &[u8]| {
     }
     let f = (data[0] % 3) as u16;
     let mut cur = Cursor::new(&data[1..]);
-    let parsed = {
+    let parsed = fuzzlib::guarded(|| {
         let mut de = savefile::new_schema_deserializer(&mut cur, f);
         Schema::deserialize(&mut de)
-    };
-    if let Ok(s) = parsed {
+    });
+    if let Ok(Ok(s)) = parsed {
         let once = write(&s, 2);
         let again = {
             let mut c2 = Cursor::new(&once);
